@@ -17,7 +17,7 @@ from ..common import Skip, brief
 ID = "C02"
 CASES = {"quick": 8000, "thorough": 80000}
 FLOOR = {"quick": 6000, "thorough": 60000}
-FLOOR_COUNTERS = {"quick": {"small_unit_fits": 400, "picks_judged": 18000, "ties_at_pick": 500}, "thorough": {"small_unit_fits": 4000, "picks_judged": 300000, "ties_at_pick": 6000}}
+FLOOR_COUNTERS = {"quick": {"warm_started_fits": 500, "estimators_with_a_past": 600, "small_unit_fits": 400, "picks_judged": 18000, "ties_at_pick": 500}, "thorough": {"warm_started_fits": 6000, "estimators_with_a_past": 7000, "small_unit_fits": 4000, "picks_judged": 300000, "ties_at_pick": 6000}}
 RULE = (
     "case = (FPS | PCov-FPS) x (feature | sample), matrix family (gauss, lattice with exact ties, clustered, duplicated, "
     "scaled, low-rank ...), mixing in {0,.1,.5,.9,.999}, initialisation int/'random'/list/ndarray, n_to_select in [len(init), N]; "
@@ -25,13 +25,13 @@ RULE = (
     "exhausted. non-trivial = at least 2 judged picks; distinct by hash of spec+data."
 )
 ASSUMPTIONS = [
-    "tolerance 1e-9 x max(|D|, largest squared norm): the code forms d = |a|^2+|b|^2-2ab, so rounding scales with the norms",
+    "tolerance 1e-11 x max(|D|, largest squared norm): the code forms d = |a|^2+|b|^2-2ab, so rounding (~1e-15) scales with the norms",
     "feature PCov-FPS: cases whose X^T X has an eigenvalue near the code's absolute 1e-12 cut are skipped (formula not determined to rounding there)",
     "steps after numerical exhaustion of the candidates are not judged here (known finding K2 of C01)",
     "the oracle's Gram/covariance algebra (numpy matmul, eigh) is trusted",
 ]
 
-KINDS = ("gauss", "lattice", "lattice", "clustered", "dup_rows", "dup_cols", "scaled", "lowrank", "uniform", "collinear")
+KINDS = ("gauss", "lattice", "lattice", "near_lattice", "clustered", "dup_rows", "dup_cols", "scaled", "lowrank", "uniform", "collinear")
 
 
 def gen(rng, tier, index):
@@ -40,7 +40,10 @@ def gen(rng, tier, index):
     hi = 14 if tier == "quick" else 30
     n, m = int(rng.integers(2, hi)), int(rng.integers(2, hi))
     kind = gens.pick(rng, KINDS)
-    X = gens.matrix(rng, n, m, kind)
+    if kind == "near_lattice":  # exact ties broken at the 1e-9 level: near-ties far above rounding
+        X = gens.matrix(rng, n, m, "lattice") + 1e-9 * rng.normal(size=(n, m))
+    else:
+        X = gens.matrix(rng, n, m, kind)
     unit = 1.0
     if rng.random() < 0.3:  # data measured in small or large units (exact power of two: no rounding)
         unit = float(2.0 ** int(rng.integers(-24, 14)))
@@ -69,13 +72,30 @@ def gen(rng, tier, index):
         kw["initialize"] = {"list": lst} if rng.random() < 0.5 else {"array": lst}
         ninit = L
     kw["n_to_select"] = int(rng.integers(ninit, N + 1))
-    return {"spec": spec, "X": X, "y": y, "kind": kind, "unit": unit}
+    warm_at = None
+    if rng.random() < 0.25 and kw["n_to_select"] - ninit >= 2:
+        warm_at = int(rng.integers(ninit, kw["n_to_select"]))  # reach n in two warm-started steps
+    decoy = None
+    if rng.random() < 0.2:  # the estimator object was fitted before, on other data of the same shape
+        decoy = {"X": rng.normal(size=X.shape) * unit * 3.0, "y": None if y is None else rng.normal(size=len(X))}
+    return {"spec": spec, "X": X, "y": y, "kind": kind, "unit": unit, "warm_at": warm_at, "decoy": decoy}
 
 
-def _run_one(spec, X, y, j, label):
+def _run_one(spec, X, y, j, label, warm_at=None, decoy=None):
     est = sel.make(spec)
+    if decoy is not None:
+        j.lib("fit:earlier-history", sel.fit, est, decoy["X"], decoy["y"], spec)
+        j.note("estimators_with_a_past")
     tr = rt.GreedyTrace(est)
-    j.lib("fit" + label, sel.fit, est, X, y, spec)
+    if warm_at is not None:
+        n_final = est.n_to_select
+        est.n_to_select = warm_at
+        j.lib("fit" + label, sel.fit, est, X, y, spec)
+        est.n_to_select = n_final
+        j.lib("fit:warm" + label, sel.fit, est, X, y, spec, warm=True)
+        j.note("warm_started_fits")
+    else:
+        j.lib("fit" + label, sel.fit, est, X, y, spec)
     return est, tr
 
 
@@ -89,13 +109,13 @@ def run(case, j):
         j.note("small_unit_fits")
     if not sel.pcov_spectrum_guard(spec, X):
         raise Skip("spectrum-near-1e-12-cut")
-    est, tr = _run_one(spec, X, y, j, "")
+    est, tr = _run_one(spec, X, y, j, "", warm_at=case.get("warm_at"), decoy=case.get("decoy"))
     D = sel.fps_distance_matrix(spec, X, y)
     A = sel.items(X, axis)
     scale = max(float(np.abs(D).max()), float((A**2).sum(axis=1).max()), 1e-300)
     if spec["cls"] == "PCovFPS":
         scale = max(scale, float(np.abs(D).max()))
-    tol = 1e-9 * scale
+    tol = 1e-11 * scale  # |a|^2 + |b|^2 - 2ab carries ~1e-15 x scale of rounding
     seq = [e["idx"] for e in tr.commits()]
     picks = tr.picks()
     idx = [int(v) for v in est.selected_idx_]
